@@ -42,3 +42,24 @@ Definition OfWalk (ps : list Z) (opt : option Z) : option (list Z * list Z) :=
       | _, _ => None
       end
   end.
+
+(** [l := walk of the whole bitmap with NextOne; sidx := IndexSelect32(bm); sidx2, ridx := IndexSelect32R64(bm);
+     for k := range l { a, b := Select32(bm, sidx, k); a2, b2 := Select32R64(bm, sidx2, ridx, k) }] *)
+From Low Require Import Model.Select Model.BitmapGetw32.
+
+Definition WalkSelect (bm : list Z) : option (list Z * list (Z * Z) * list (Z * Z)) :=
+  match IterNext bm 0 (64 * zlen bm), IndexSelect32 bm, IndexSelect32R64 bm with
+  | Some l, Some sidx, Some (sidx2, ridx) =>
+      let ks := map Z.of_nat (seq 0 (length l)) in
+      match all_some (map (Select32 bm sidx) ks), all_some (map (Select32R64 bm sidx2 ridx) ks) with
+      | Some s1, Some s2 => Some (l, s1, s2)
+      | _, _ => None
+      end
+  | _, _, _ => None
+  end.
+
+(** what select returns for every index of an ascending list [o] of 1-bits of a bitmap of [n] bits:
+    the [k]-th and the [k+1]-th element ([n] after the last) *)
+Definition sel_pairs (o : list Z) (n : Z) : list (Z * Z) :=
+  map (fun k => (nth (Z.to_nat k) o 0, if k + 1 <? zlen o then nth (Z.to_nat (k + 1)) o 0 else n))
+      (map Z.of_nat (seq 0 (length o))).
